@@ -11,9 +11,15 @@ from props import consumer_lib as L
 
 MODEL = "consumer"
 MODULE = "Model.Consumer"
-THEOREMS = ["C13_quiescent_after_stop", "C13_stopping_inert", "C13_quiescent_closed", "C13_start_once",
-            "C13_start_once_nested", "C13_restartable", "C13_stop_not_running", "C13_reachable_invariant",
-            "C13_every_stop_quiescent"]
+# every theorem of coq/Props/C13.v and C13all.v speaks about Model/Consumer.v: all lose their tie when the correspondence breaks
+THEOREMS = ["C13_quiescent_after_stop", "C13_stopping_inert", "C13_stop_never_fails_start", "C13_stop_step_never_fails_start",
+            "C13_quiescent_closed", "C13_start_once", "C13_start_once_nested", "C13_restartable", "C13_restart_delivers",
+            "C13_stop_clears_shutdown_partial", "C13_shutdown_waits", "C13_stop_not_running", "C13_reachable_invariant",
+            "C13_not_started_idle", "C13_not_started_idle_nested", "C13_every_stop_quiescent", "C13_shutdown_commits",
+            "C13_shutdown_commits_step", "C13_fuel_monotone", "C13_fuel_monotone_nested", "C13_stop_fuel_enough",
+            "C13_stop_step_fuel_enough", "C13_stopping_fuel_enough", "C13_commit_side_fuel_enough", "C13_message_loop_fuel_enough",
+            "C13_step_fuel_enough", "C13_fuel_enough", "C13_reachable_invariant_all", "C13_every_stop_quiescent_all",
+            "C13_shutdown_commits_all", "C13_not_started_idle_all"]
 
 
 def idle(ob):
@@ -391,13 +397,13 @@ def run(ck):
     L.quiet()
 
     batches = []
-    batches.append(("corpus (fixed defects F-C13-1..5, F-C03-2; graceful shutdown)", [(L.Cfg(**kw), evs) for _, kw, evs in CORPUS]))
+    batches.append(("corpus (the seven repaired defects F-C13-1..6, F-C03-2; graceful shutdown incl. from inside the processor)", [(L.Cfg(**kw), evs) for _, kw, evs in CORPUS]))
     fam = []
     for _ in range(700 * scale):
         name, cfg, evs = fam_stop_everywhere(rnd)
         ck.hist("stop_from:" + name)
         fam.append((cfg, evs))
-    batches.append(("stop()/shutdown() from each of 20 state classes, then any ordering of the outstanding replies", fam))
+    batches.append(("stop()/shutdown() from each of 21 state classes, then any ordering of the outstanding replies", fam))
     gen = []
     for _ in range(700 * scale):
         cfg, evs, _ = L.gen_case(rnd, rnd.choice([15, 30, 45, 70 if thorough else 45]), weights=C13_WEIGHTS)
@@ -485,6 +491,12 @@ def run(ck):
     # start() from a CALLBACK of the start Deferred, at the moment stop() reports the consumer stopped (C13-m9, C14-m8)
     rruns, rrestarts, rfail = L.restart_cb_family(ck, rnd, [(n_, k_, p_) for (n_, k_, p_) in preambles(rnd)], 1 * scale)
     ck.cov["restart_from_start_callback_runs"] = {"runs": rruns, "restarts_made": rrestarts, "failing": rfail}
+    obs7, cfg7, evs7, drv7, _o7 = L.probe_F_C13_7()
+    ck.finding("F-C13-7", obs7,
+               "start() from a callback of the start Deferred fired by the stop() that ends shutdown(): when the nested start's first "
+               "request fails at once the retry is dropped (the shutting-down flag is still set): started, no request, no retry timer",
+               {"kind": "repaired defect observed again", "cfg": cfg7.line(), "events": [list(e) for e in evs7], "impl_trace": drv7.trace,
+                "mode": "cb", "fail_first": True, "replay_op": "restartcb"})
     ck.cov["hooked_start_errback_runs"] = {"random_cases": 250 * scale, "directed_cases": ndir, "hook_invocations": nh, "failing": hooked_bad}
 
     nbad = 0
@@ -563,11 +575,11 @@ def run(ck):
 
     if thorough:
         ck.coqchk(["AV.Props.C13"])
-    ck.cov["rule"] = ("seeded (random.Random(VERIF_SEED)): (a) stop()/shutdown() issued from 20 directed state classes (resolving offsets, "
+    ck.cov["rule"] = ("seeded (random.Random(VERIF_SEED)): (a) stop()/shutdown() issued from 21 directed state classes (resolving offsets, "
                       "fetching, reply parked, processing, waiting to retry, manual/automatic/timer commit in flight or in back-off, commit "
-                      "waiters queued, from inside the processor, start Deferred already failed, shutdown in each of its phases) followed by "
+                      "waiters queued, stop()/commit()/shutdown() from inside the processor, start Deferred already failed, shutdown in each of its phases) followed by "
                       "random orderings of the outstanding replies and further API calls incl. restart; (b) state-aware random sequences over "
-                      "the 14-event alphabet with stop/shutdown/commit-heavy weights; (c) corpus of the six repaired defects. Non-trivial = "
+                      "the 14-event alphabet with stop/shutdown/commit-heavy weights; (c) corpus of the seven repaired defects (F-C13-1..6, F-C03-2) and graceful-shutdown cases; (d) long fetches of 20-120 processor blocks; (e) implementation-side only, no model counterpart: callbacks of the start Deferred that re-enter the consumer - errback -> stop()/commit()/shutdown() (random + 22 state classes x 9 ways to fail the start Deferred), callback/addBoth -> start(next offset) at the moment stop() fires it (22 state classes x 3 kinds of stop x first request failing at once or not), probe of repaired F-C13-7. Non-trivial = "
                       "the run cancels something or completes a shutdown; distinct = distinct canonical case lines.")
     ck.assumptions += [
         "Model/Consumer.v is a hand transcription of afkak/consumer.py:290-1131 (tie = this run's trace correspondence, not proof)",
@@ -575,10 +587,18 @@ def run(ck):
         "cancelled, processor Deferreds not fired; the client is a scripted stand-in",
         "Twisted Deferred cancellation / callback-chain re-entrancy, DelayedCall and LoopingCall semantics as summarised at the top of "
         "Model/Consumer.v (exercised by the correspondence, not verified)",
-        "C13_quiescent_after_stop is proved for every state with _stopping clear and no auto-commit tick in progress; "
-        "C13_reachable_invariant / C13_every_stop_quiescent extend it to every stop() of every run under the hypothesis that the "
-        "interpreter fuel is not exhausted (no OFuel output: confirmed for every generated case by trace equality)",
-        "C13_shutdown_commits (last_committed == last_processed on a successful shutdown with a group) is a monitor + model-side check, not yet Qed",
+        "C13_quiescent_after_stop is proved for every state with _stopping clear and no auto-commit tick in progress; the run-level theorems "
+        "(C13_reachable_invariant, C13_every_stop_quiescent [application stop() events], C13_shutdown_commits, C13_not_started_idle) carry the "
+        "hypothesis all_fuel_ok, which C13_fuel_enough discharges for every configuration the constructor accepts (auto_commit_every_n >= 0): "
+        "the _all forms (Props/C13all.v) state them as exists fuel0, forall fuel >= fuel0",
+        "Props/C13all.v (4 of the 31 theorems: C13_reachable_invariant_all, C13_every_stop_quiescent_all, C13_shutdown_commits_all, "
+        "C13_not_started_idle_all - one-line corollaries of C13_fuel_enough and the theorem of the same name without _all, both in Props/C13.v) "
+        "is re-checked by ck.props only on the thorough tier; on the quick tier it is built by make and its 4 obligations are NOT re-checked",
+        "NOT proved: that every reachable state has consistent shutdown bookkeeping (invs item 5, evaluated model-side on every case; "
+        "C13_stop_clears_shutdown_partial assumes it); commit-side quiescence for the rest of the event after a stop() made inside the processor; "
+        "a processor / auto-commit failure reaching the start Deferred is held by trace equality only",
+        "the harness gives the model fuel 60 + #events + 2 x #messages (consumer_lib.fuel_for), not the proved bound BE; a case needing more would "
+        "surface as a trace difference (the implementation never emits the out-of-fuel marker)",
     ]
     ck.cov["trusted_base"] += ["correspondence harness harness/props/C13.py + consumer_lib.py + vlib.py",
                                "extracted OCaml runner (ExtrOcamlBasic) cross-checked by vm_compute sample"]
